@@ -150,9 +150,11 @@ impl HttpProtocol {
 impl From<::http::Version> for HttpProtocol {
     fn from(version: ::http::Version) -> Self {
         match version {
-            ::http::Version::HTTP_11 | ::http::Version::HTTP_10 => Self::Http1,
             ::http::Version::HTTP_2 => Self::Http2,
-            _ => panic!("Unsupported HTTP protocol"),
+            // Every other version (HTTP/0.9, HTTP/1.0, HTTP/1.1 and versions which this client
+            // can't speak natively) is carried over an HTTP/1.1 connection: the connection
+            // sets the request's version to its own when the request is sent.
+            _ => Self::Http1,
         }
     }
 }
